@@ -342,8 +342,11 @@ class Program:
         from .sroa import scalarise
         from .renames import reference as _reference
         self.scalarised = scalarise([(short(n_), t_) for n_, _p, _s, t_, _k in processed], set(_reference()[1]))
-        for name, path, src, tree, is_pkg in processed:
-            tree = canonicalise(tree, short(name))
+        canon_trees = [(name, path, src, canonicalise(tree, short(name)), is_pkg) for name, path, src, tree, is_pkg in processed]
+        if self.scalarised:
+            # canonicalisation may have exposed more of them (a callee chosen by a conditional expression is now a direct call on each arm)
+            scalarise([(short(n_), t_) for n_, _p, _s, t_, _k in canon_trees], set(_reference()[1]))
+        for name, path, src, tree, is_pkg in canon_trees:
             m = Module(name, path, os.path.relpath(path, self.repo), src, tree, is_pkg)
             self.modules[name] = m
         self.digest = h.hexdigest()
